@@ -86,6 +86,15 @@ Section Query.
         destruct (i_wl_live _ _ Hr _ _ Hw' Hx Ew) as [Ec _]. rewrite Ec. now apply in_classes.
   Qed.
 
+  (* each existing instance once: a result that is a permutation of the Spec's answer has no repetition, so the
+     domain cache (which yields an id once) passes it on unchanged *)
+  Lemma once_each L T l : WorldOk L -> Permutation l (map Some (spec_query children fuel L T)) -> NoDup l.
+  Proof.
+    intros Hw P. eapply Permutation_NoDup; [symmetry; exact P|].
+    apply FinFun.Injective_map_NoDup; [intros a b E; congruence|].
+    unfold spec_query. apply NoDup_map_filter. apply Hw.
+  Qed.
+
   (* ---------------------------------------------------------------- AllReg over histories without Clear *)
   Definition is_clear (o : op) : bool := match o with Clear => true | _ => false end.
   Definition no_clear (h : list op) : bool := forallb (fun o => negb (is_clear o)) h.
@@ -141,10 +150,12 @@ Section Query.
     assert (HA : AllReg (live (fst (run init h))) (g (fst (run init h)))).
     { apply run_AllReg; auto; [exact (Inv_init children fuel)|intros x Hx; destruct Hx]. }
     set (s := fst (run init h)) in *.
-    exists (instances (live s) (sweep (live s) (g s)) T). split.
-    - destruct Hq as [-> | ->]; reflexivity.
-    - apply instances_perm; auto.
-      + apply sweep_inv, HI. + apply HI. + apply sweep_swept. + apply AllReg_sweep; auto. apply HI.
+    assert (P : Permutation (instances (live s) (sweep (live s) (g s)) T) (map Some (spec_query children fuel (live s) T))).
+    { apply instances_perm; auto.
+      + apply sweep_inv, HI. + apply HI. + apply sweep_swept. + apply AllReg_sweep; auto. apply HI. }
+    destruct Hq as [-> | ->].
+    - eexists. split; [reflexivity|exact P].
+    - eexists. split; [reflexivity|]. rewrite dedupo_NoDup_id; auto. eapply once_each; eauto. apply HI.
   Qed.
 
   (* a variable declared earlier (let(T, None) called, query not evaluated) and evaluated only now: its range is decided
@@ -160,10 +171,12 @@ Section Query.
     assert (HA : AllReg (live (fst (run init h))) (g (fst (run init h)))).
     { apply run_AllReg; auto; [exact (Inv_init children fuel)|intros x Hx; destruct Hx]. }
     set (s := fst (run init h)) in *.
-    exists (instances (live s) (sweep (live s) (g s)) T). split.
+    assert (P : Permutation (instances (live s) (sweep (live s) (g s)) T) (map Some (spec_query children fuel (live s) T))).
+    { apply instances_perm; auto.
+      + apply sweep_inv, HI. + apply HI. + apply sweep_swept. + apply AllReg_sweep; auto. apply HI. }
+    eexists. split.
     - simpl. rewrite Hk. reflexivity.
-    - apply instances_perm; auto.
-      + apply sweep_inv, HI. + apply HI. + apply sweep_swept. + apply AllReg_sweep; auto. apply HI.
+    - rewrite dedupo_NoDup_id; auto. eapply once_each; eauto. apply HI.
   Qed.
 
   (* ... and as long as no EQL query has cached a domain, the existing instances are exactly the referenced ones *)
